@@ -328,3 +328,67 @@ SPECS['C15'] = dict(queries=c15, assumptions=SPECS['C01']['assumptions'] + [
     "every completed history (invoke/response stamps, arguments, results) is checked inside the formula against a sequential register by a subset "
     "dynamic program over all real-time-compatible linearisations (vpmodels.h vp_lin_check)"],
     outside=["deferred_guarded::load (C06 harness)", "more than 3 threads / 2 operations per thread / 6 operations per history", "value domains larger than 3"])
+
+
+# ------------------------------------------------------------------------------------------------ C05 (rcu_list reclamation)
+RCU_T = {'A': ('A', 'vp_reader'), 'B': ('B', 'vp_writer'), 'C': ('C', 'vp_short'), 'D': ('D', 'vp_writer2')}
+
+
+def rq(name, tl, rounds, order=None, defines=(), unwind=6, **kw):
+    threads = [RCU_T[t] for t in tl]
+    cover = 0
+    for t in tl: cover |= {'A': 1, 'B': 2, 'C': 4, 'D': 4}[t]
+    kw.setdefault('timeout', 900)
+    return mk(name, 'c05_rcu.cpp', threads, rounds, order=order, final='vp_final', cover=cover, defines=list(defines),
+              opts={'yield_blocks': False}, unwind=unwind, checks='pointer', **kw)
+
+
+def c05(tier):
+    qs = []
+    d = ['ERASE_POS=-1', 'PUSH_BACK']
+    if tier == 'quick':
+        qs.append(rq('rcu_reader_writer_R3', 'AB', 3, defines=d))
+        qs.append(rq('rcu_writer_short_R3', 'BC', 3, defines=d))
+        qs.append(rq('rcu_abc_R2_o012', 'ABC', 2, order=(0, 1, 2), defines=d))
+        qs.append(rq('rcu_abc_R2_o120', 'ABC', 2, order=(1, 2, 0), defines=d))
+    else:
+        for o in orders(3, 'all'):
+            qs.append(rq('rcu_abc_R2_o' + ''.join(map(str, o)), 'ABC', 2, order=o, defines=d, timeout=3000, solvers=('kissat', 'cadical', 'minisat')))
+        qs.append(rq('rcu_reader_writer_R4', 'AB', 4, defines=d, timeout=3000))
+        qs.append(rq('rcu_writer_short_R4', 'BC', 4, defines=d, timeout=3000))
+        qs.append(rq('rcu_n3_erase_mid_abc_R2', 'ABC', 2, order=(1, 2, 0), defines=['NINIT=3', 'ERASE_POS=1'], timeout=3000))
+        qs.append(rq('rcu_abc_R3_o120', 'ABC', 3, order=(1, 2, 0), defines=['ERASE_POS=0'], timeout=3000, solvers=('kissat', 'cadical')))
+    return qs
+
+
+SPECS['C05'] = dict(queries=c05, assumptions=COMMON_ASSUMPTIONS + [
+    "use-after-free / double free are decided by cbmc's pointer checks on the encoded real code (every load/store of rcu_list, rcu_guard, iterators)",
+    "operator delete is a context-switch point; freed memory is never re-used by a later allocation (no ABA through address reuse)",
+    "list initially holds 2 (3) elements; the writer erases a symbolic position and pushes one element; the reader pauses before every dereference"],
+    outside=["more than 3 threads, more than one erase per writer, lists longer than 4", "R=3 for three threads (thorough tier tries one order)"])
+
+
+# ------------------------------------------------------------------------------------------------ C12
+def c12(tier):
+    qs = []
+    d = ['ERASE_POS=-1', 'PUSH_BACK', 'W2_EMPLACE', 'EXPECT_SUM=75']
+    if tier == 'quick':
+        qs.append(mk('rculist_seq_3ops', 'c12_rcuseq.cpp', [], 1, seq=['vp_seq'], cover=1, defines=['NOPS=3'], unwind=5, checks='pointer', timeout=900))
+        qs.append(rq('rcu_reader_2writers_R2_o012', 'ABD', 2, order=(0, 1, 2), defines=d))
+        qs.append(rq('rcu_reader_2writers_R2_o201', 'ABD', 2, order=(2, 0, 1), defines=d))
+        qs.append(rq('rcu_2writers_R3', 'BD', 3, defines=d))
+    else:
+        qs.append(mk('rculist_seq_4ops', 'c12_rcuseq.cpp', [], 1, seq=['vp_seq'], cover=1, defines=['NOPS=4'], unwind=6, checks='pointer', timeout=3000))
+        for o in orders(3, 'all'):
+            qs.append(rq('rcu_reader_2writers_R2_o' + ''.join(map(str, o)), 'ABD', 2, order=o, defines=d, timeout=3000))
+        qs.append(rq('rcu_2writers_R4', 'BD', 4, defines=d, timeout=3000))
+        qs.append(rq('rcu_reader_writer_n3_R3', 'AB', 3, defines=['NINIT=3', 'ERASE_POS=1', 'PUSH_FRONT', 'EXPECT_SUM=65'], timeout=3000))
+    return qs
+
+
+SPECS['C12'] = dict(queries=c12, assumptions=SPECS['C05']['assumptions'] + [
+    "sequential query: 3 (4) symbolic operations out of push_front/push_back/emplace_front/emplace_back/erase(k-th), mirrored on a reference array; "
+    "after every operation a full traversal must equal the reference and erase must return the successor",
+    "concurrent queries: values are chosen so that list order is numeric order; the reader checks order, membership and that elements present for the whole "
+    "traversal are visited; final contents must equal the sequential result of the writers' operations (sum / order / erased value absent)"],
+    outside=["insert/emplace(pos)/clear (declared, never defined)", "reverse iteration (operator-- does not compile)", "more than 2 writers, 1 reader"])
